@@ -56,8 +56,9 @@ PROPS = {
                      "partials declared method='cs'/'fd' are OpenMDAO's approximations of compute()",
                      "the model Jacobian the code is compared with is the dual-number evaluation of the model; its exactness (= the "
                      "derivative of the real-number model along every curve) is proved primitive by primitive (Lemmas/AD.lean) and "
-                     "for the model functions listed in C01AD*.lean; for the remaining model functions (geometry transformations, "
-                     "moment coefficient, KS aggregation, whole VLM assembly) it rests on the primitive lemmas without a composed theorem"],
+                     "for the model functions listed in C01AD*.lean (C01AD .. C01AD8); for model functions without a composed theorem "
+                     "(e.g. the B-spline-free geometry chain as a whole, the assembled VLM system as a whole) it rests on the primitive "
+                     "lemmas and on the composed theorems of their parts"],
     ),
     "C03": dict(
         components=["MomentCoefficient", "VortexMesh", "ViscousDrag", "WaveDrag", "LoadTransfer", "Taper", "ScaleX", "Rotate", "Stretch",
